@@ -67,7 +67,7 @@ def dict_words():
 FEATURES = ['deep_ns', 'global_enc', 'shared_itf', 'empty_itf', 'no_ports', 'inout_mix',
             'out_many_formals', 'nested_enum', 'outer_enum', 'injected', 'same_name_siblings',
             'multi_id_ns', 'reopened_ns', 'system_enc', 'partial_spelling', 'distractors',
-            'many_ports', 'subint_reply', 'bool_reply', 'mc_ready', 'ref_extern', 'prefix_ports', 'mirror_ns', 'many_provides', 'prefix_ns', 'many_requires', 'shadow_ns', 'repeat_ns', 'name_like_ns', 'api_names', 'dict_names', 'one_way_itf']
+            'many_ports', 'subint_reply', 'bool_reply', 'mc_ready', 'ref_extern', 'prefix_ports', 'mirror_ns', 'many_provides', 'prefix_ns', 'many_requires', 'shadow_ns', 'repeat_ns', 'name_like_ns', 'api_names', 'dict_names', 'one_way_itf', 'big']
 
 
 def _uniq(draw, pool, taken, n=1):
@@ -106,6 +106,12 @@ def shell_model(draw, force=None, max_ports=6, collide=False):  # pylint: disabl
     else:
         NS_POOL, TYPE_POOL, COMP_POOL, FIELD_POOL, PORT_POOL, EVENT_POOL, FORMAL_POOL = \
             G_NS_POOL, G_TYPE_POOL, G_COMP_POOL, G_FIELD_POOL, G_PORT_POOL, G_EVENT_POOL, G_FORMAL_POOL
+    if 'big' in feats:
+        # sizes: many ports, many events, many formals, long names
+        long_id = 'with_a_very_long_name_that_goes_on_and_on_0123456789_0123456789_0123456789'
+        PORT_POOL = list(PORT_POOL) + ['port_' + long_id, 'r1', 'r2', 'r3', 's1', 's2']  # pylint: disable=invalid-name
+        EVENT_POOL = list(EVENT_POOL) + ['Event_' + long_id, 'Ev2', 'Ev3']  # pylint: disable=invalid-name
+        FORMAL_POOL = list(FORMAL_POOL) + ['formal_' + long_id]  # pylint: disable=invalid-name
 
     # ---- namespace skeleton: scope paths (prefix closed)
     depth = draw(st.integers(2, 4)) if 'deep_ns' in feats else draw(st.integers(0, 2))
@@ -351,7 +357,9 @@ def shell_model(draw, force=None, max_ports=6, collide=False):  # pylint: disabl
         itf_fqn = tuple(sc) + tuple(itf['name'])
         ev_taken = set()
         n_in = draw(st.integers(2 if 'mc_ready' in feats else 1, 4))
-        n_out = draw(st.integers(1 if ({'mc_ready', 'prefix_ports', 'out_inout', 'out_many_formals',
+        if 'big' in feats:
+            n_in = draw(st.integers(5, 8))
+        n_out = draw(st.integers(4, 6)) if 'big' in feats else draw(st.integers(1 if ({'mc_ready', 'prefix_ports', 'out_inout', 'out_many_formals',
                                         'ref_extern'} & feats) else 0, 3))
         if 'one_way_itf' in feats and not itf.get('mirror'):
             # one-way interfaces: the first has out-events only (a provides port of it has nothing
@@ -380,6 +388,8 @@ def shell_model(draw, force=None, max_ports=6, collide=False):  # pylint: disabl
                 ('inout_mix' in feats and is_in) \
                 or itf.get('mirror')
             nf = draw(st.integers(2, 4)) if many else draw(st.integers(0, 3))
+            if 'big' in feats and j % 3 == 0:
+                nf = draw(st.integers(5, 7))
             f_taken = set()
             for k in range(nf):
                 ref = choose_ref(('extern',), itf_fqn, 'partial_spelling' in feats)
@@ -413,6 +423,8 @@ def shell_model(draw, force=None, max_ports=6, collide=False):  # pylint: disabl
         n_ports = draw(st.integers(4, max_ports)) if ('many_ports' in feats or 'many_requires' in feats or
                                                       'many_provides' in feats) else \
             draw(st.integers(1, min(4, max_ports)))
+        if 'big' in feats:
+            n_ports = draw(st.integers(9, 12))
         p_taken = set()
         shared = None
         for j in range(n_ports):
